@@ -17,6 +17,7 @@ import itertools
 import warnings
 
 import numpy as np
+from fractions import Fraction
 
 from ..kit import cz, czl, cnat, cnatl, cstr, cbool, clist
 
@@ -39,8 +40,99 @@ def ccs(cs):
     return "{| cnames := %s; cname := %s; cdt := %d |}" % (cstrl(cs.coord_names), cstr(cs.name), DT[np.dtype(cs.coord_dtype)])
 
 
+# Value magnitudes.  Affines are integer matrices whose rows / columns / offsets are multiplied by powers of two
+# (micrometre voxels in a metre world, huge offsets, tiny obliquity terms, mixed units): every float operation of
+# the implementation stays exact, and multiplying all world coordinates by 2**SCALE["k"] gives integers.  Every model
+# operation commutes with this uniform scaling of the reference coordinates (the bottom row is not scaled), so the Z
+# model is evaluated on the scaled image.  SCALE["k"] is set when an original image is generated and is valid for
+# everything derived from it (entries of derived affines are integer combinations of the original's).
+SCALE = {"k": 0}
+MAG_OF = {}      # id(original image) -> magnitude label (for buckets / replays)
+MAG_EXPS_TINY = [-17, -20, -22]
+MAG_EXPS_HUGE = [10, 18]
+
+
+def _scaled_int(v):
+    """exact value of float v times 2**SCALE['k'] as an int, or None"""
+    f = Fraction(*float(v).as_integer_ratio()) * (1 << SCALE["k"])
+    return int(f) if f.denominator == 1 else None
+
+
+def set_scale(A):
+    """smallest k >= 0 such that every entry of the top rows of A times 2**k is an integer"""
+    k = 0
+    for v in np.asarray(A, dtype=float)[:-1].ravel():
+        d = Fraction(*float(v).as_integer_ratio()).denominator
+        k = max(k, d.bit_length() - 1)
+    assert k <= 60, k
+    SCALE["k"] = k
+    return k
+
+
+def apply_magnitudes(rng, A, p=0.4):
+    """A: integer homogeneous matrix -> (float matrix with mixed value magnitudes, label); sets SCALE"""
+    A = np.array(A, dtype=np.float64)
+    nout, nin = A.shape[0] - 1, A.shape[1] - 1
+    kind = "unit"
+    if nin >= 1 and rng.random() < p:
+        tiny = lambda: 2.0 ** int(rng.choice(MAG_EXPS_TINY))
+        huge = lambda: 2.0 ** int(rng.choice(MAG_EXPS_HUGE))
+        kind = str(rng.choice(["tiny-steps", "tiny-steps", "tiny-all", "huge-steps", "tiny-offsets", "huge-offsets",
+                               "mixed-rows", "mixed-cols", "tiny-shear", "tiny-shear"]))
+        if kind == "tiny-steps":          # e.g. metres with micrometre voxels, ordinary offsets
+            A[:-1, :-1] *= tiny()
+        elif kind == "tiny-all":
+            A[:-1, :] *= tiny()
+        elif kind == "huge-steps":
+            A[:-1, :-1] *= huge()
+        elif kind == "tiny-offsets":
+            A[:-1, -1] *= tiny()
+        elif kind == "huge-offsets":
+            A[:-1, -1] *= huge()
+        elif kind == "mixed-rows":        # a different unit for every reference coordinate
+            for r in range(nout):
+                A[r, :] *= float(rng.choice([1.0, 1.0, tiny(), huge()]))
+        elif kind == "mixed-cols":        # a different voxel size for every axis
+            for j in range(nin):
+                A[:-1, j] *= float(rng.choice([1.0, 1.0, tiny(), huge()]))
+        else:                             # tiny obliquity / shear terms next to ordinary steps
+            L = A[:-1, :-1]
+            t = tiny()
+            done = False
+            for j in range(nin):
+                col = np.abs(L[:, j])
+                for r in range(nout):
+                    if col[r] != 0 and col[r] < col.max() or (col[r] != 0 and r != int(np.argmax(col))):
+                        L[r, j] *= t
+                        done = True
+            if not done:
+                zr, zc = np.where(L == 0)
+                if len(zr):
+                    q = int(rng.integers(0, len(zr)))
+                    L[zr[q], zc[q]] = float(rng.choice([-3, -1, 1, 2])) * t
+    set_scale(A)
+    SCALE["mag"] = kind
+    return A, kind
+
+
+def mag_suffix():
+    """structural feature of the current original image's value magnitudes, for failure signatures"""
+    m = SCALE.get("mag", "unit")
+    return "" if m == "unit" else "/magnitudes:" + m
+
+
 def cmat(M):
-    return clist([czl([int(v) for v in row]) for row in np.asarray(M)])
+    M = np.asarray(M)
+    rows = []
+    for r, row in enumerate(M):
+        if r == len(M) - 1:
+            rows.append(czl([int(v) for v in row]))
+        else:
+            vals = [_scaled_int(v) for v in row]
+            if any(v is None for v in vals):
+                raise ValueError("affine entry is not an integer multiple of 2**-%d: %r" % (SCALE["k"], list(row)))
+            rows.append(czl(vals))
+    return clist(rows)
 
 
 def caff(a):
@@ -48,8 +140,11 @@ def caff(a):
 
 
 def is_int_array(M):
+    """every entry exactly representable at the current scale (top rows times 2**k integral, bottom row integral)"""
     M = np.asarray(M, dtype=float)
-    return bool(np.all(M == np.round(M)) and np.all(np.abs(M) < 2 ** 50))
+    if not np.all(np.isfinite(M)) or not np.all(M[-1] == np.round(M[-1])):
+        return False
+    return all(_scaled_int(v) is not None for v in M[:-1].ravel())
 
 
 def cimg(img):
@@ -159,9 +254,16 @@ def rand_image(rng, ndim=None, maxext=4, xyz=False, int_ok=True):
     A[:-1, -1] = rng.integers(-4, 5, nout)
     A[-1, -1] = 1
     dt = np.int64 if (rng.random() < 0.1 and int_ok) else np.float64
+    if dt is np.float64:
+        A, mag = apply_magnitudes(rng, A)
+    else:
+        set_scale(A)
+        SCALE["mag"] = mag = "unit"
     cm = AffineTransform(CS(inn, str(rng.choice(["", "voxels", "in"])), dt),
                          CS(outn, str(rng.choice(["", "world", "mni"])), dt), A.astype(dt))
-    return Image(data, cm)
+    img = Image(data, cm)
+    MAG_OF[id(img)] = mag
+    return img
 
 
 def slicer_choices(n, wide=True):
@@ -453,7 +555,7 @@ def check_tracks(res, orig, rho):
         if v not in otab:
             return "value-invented"
         if otab[v] != w:
-            return "world-position-changed"
+            return "world-position-changed" + mag_suffix()
     return None
 
 
@@ -517,6 +619,7 @@ def section_input_axis_index(ck, rng):
             A[:-1, :-1] = rand_linear(rng, nout, nin)
             A[:-1, -1] = rng.integers(-3, 4, nout)
             A[-1, -1] = 1
+            A, _mag = apply_magnitudes(rng, A)
             cm = AffineTransform(CS(inn), CS(outn), A)
             ids = list(range(-nin, nin + 1)) + inn + [o for o in outn if o not in inn] + ["nosuch"]
             for a in ids:
@@ -863,6 +966,7 @@ def section_as_xyz(ck, rng):
                 A[int(rng.integers(0, nout)), int(rng.integers(0, nd))] += 1
             A[:-1, -1] = rng.integers(-4, 5, nout)
             A[-1, -1] = 1
+            A, _mag = apply_magnitudes(rng, A)
             img = Image(data, AffineTransform(CS(inn, "voxels"), CS(outn, "world"), A))
             snap = snapshot(img)
             try:
@@ -965,7 +1069,8 @@ def coupled_image(rng, nd):
         A[rows[j], j] = 0
     A[:-1, -1] = rng.integers(-5, 6, nout)
     A[-1, -1] = 1
-    return Image(data, AffineTransform(CS(inn, "voxels"), CS(outn, "world"), A.astype(float))), style
+    A, mag = apply_magnitudes(rng, A)
+    return Image(data, AffineTransform(CS(inn, "voxels"), CS(outn, "world"), A)), style + ("" if mag == "unit" else "+" + mag)
 
 
 def section_image_list(ck, rng):
@@ -1091,7 +1196,7 @@ def union_check(elements, otab, dropped):
                 return ("value-invented", feat, "value %g of element %d is not in the image" % (v, k), k)
             want = frozenset((n, x) for n, x in otab[v] if n != dropped)
             if w != want:
-                return ("world-position-changed", feat, "value %g: the image has it at %s, element %d puts it at %s"
+                return ("world-position-changed", feat + mag_suffix(), "value %g: the image has it at %s, element %d puts it at %s"
                         % (v, sorted(want), k, sorted(w)), k)
     if seen != set(otab):
         return ("values-lost", "all-elements", "%d of %d values are in no element" % (len(set(otab) - seen), len(otab)), None)
